@@ -562,6 +562,92 @@ after a fresh didOpen {:?}", last(&o), last(&of)))
         }
         stats.push(json!({"family": "published-diagnostics-after-didChange", "cases": cases.len(), "diverging": n_fail, "diverging_known": n_known}));
     }
+    // every feature answer after the edits equals the answer of a freshly opened document
+    // (all 13 request kinds at all positions; the first round of requests on the old text also
+    // warms anything a handler might keep between requests)
+    {
+        use crate::checks::c02::all_requests;
+        use crate::lsptext;
+        use crate::session::{Session, URI};
+        let cases: Vec<&Case> = fams
+            .iter()
+            .filter(|(n, _)| *n == "F2-token-soup" || *n == "F4-program-token-windows" || *n == "F5-valid-to-valid-token-edits" || *n == "batches-of-two")
+            .flat_map(|(_, cs)| cs.iter().step_by(tier.pick(211, 29)))
+            .filter(|c| !known.contains(&c.id()))
+            .collect();
+        let canon = |mut v: Value| -> Value {
+            if let Some(a) = v.get_mut("result").and_then(|r| r.as_array_mut()) {
+                if a.iter().all(|x| x.get("label").is_some()) {
+                    a.sort_by_key(|x| x.to_string());
+                }
+            }
+            v
+        };
+        let res: Vec<Option<String>> = cases
+            .par_iter()
+            .map(|c| {
+                let mut cur = c.text.clone();
+                let mut s = Session::new(false);
+                s.open(URI, &c.text);
+                for r in all_requests(&c.text, URI, false).into_iter().step_by(7) {
+                    s.request(&r.method, r.params);
+                }
+                for b in &c.batches {
+                    let mut evs = vec![];
+                    for (a, e, r) in b {
+                        let (l1, c1) = lsptext::position(&cur, *a);
+                        let (l2, c2) = lsptext::position(&cur, *e);
+                        evs.push(json!({"range": {"start": {"line": l1, "character": c1}, "end": {"line": l2, "character": c2}}, "text": r}));
+                        cur.replace_range(*a..*e, r);
+                    }
+                    s.change(URI, Value::Array(evs));
+                }
+                // on the final text: the document requests and the position requests at the first
+                // column of every token and directly behind the text
+                let starts: std::collections::BTreeSet<(u64, u64)> = crate::reflex::lex(&cur)
+                    .iter()
+                    .map(|t| lsptext::position(&cur, t.start))
+                    .chain(std::iter::once(lsptext::position(&cur, cur.len())))
+                    .map(|(l, c)| (l as u64, c as u64))
+                    .collect();
+                let reqs: Vec<_> = all_requests(&cur, URI, false)
+                    .into_iter()
+                    .filter(|r| match r.params.get("position") {
+                        Some(p) => starts.contains(&(p["line"].as_u64().unwrap_or(0), p["character"].as_u64().unwrap_or(0))),
+                        None => true,
+                    })
+                    .collect();
+                let ids: Vec<i64> = reqs.iter().map(|r| s.request(&r.method, r.params.clone())).collect();
+                let o = s.run();
+                let mut f = Session::new(false);
+                f.open(URI, &cur);
+                let fids: Vec<i64> = reqs.iter().map(|r| f.request(&r.method, r.params.clone())).collect();
+                let of = f.run();
+                if o.error.is_some() || o.frame_error.is_some() || of.error.is_some() {
+                    return Some(format!("session failed: {:?} {:?} / fresh {:?}", o.error, o.frame_error, of.error));
+                }
+                let (ra, rb) = (o.responses(), of.responses());
+                for ((ia, ib), r) in ids.iter().zip(&fids).zip(&reqs) {
+                    let a = ra.get(ia).map(|v| canon(json!({"result": v.get("result"), "error": v.get("error")})));
+                    let b = rb.get(ib).map(|v| canon(json!({"result": v.get("result"), "error": v.get("error")})));
+                    if a != b {
+                        return Some(format!("{} {}: after the edits {:?}, freshly opened {:?}", r.method, r.params["position"], a, b));
+                    }
+                }
+                None
+            })
+            .collect();
+        let mut n_fail = 0u64;
+        for (c, bad) in cases.iter().zip(res) {
+            evals.fetch_add(1, Ordering::Relaxed);
+            if let Some(d) = bad {
+                n_fail += 1;
+                failing_ids.push(c.id());
+                fails.push(Failure { key: "divergence:feature-answers".into(), case: c.json(), detail: truncate(&d, 1500) });
+            }
+        }
+        stats.push(json!({"family": "feature-answers-after-edits-vs-fresh", "cases": cases.len(), "diverging": n_fail, "note": "inputs of the exact known-divergence list are excluded here"}));
+    }
     let (hs, ht, hk, hf) = history_bfs(tier, &known);
     for f in &hf {
         // ids of history failures for the baseline
